@@ -119,7 +119,7 @@ package route
 //@   ensures [totals] distance == chainDist(net, nodes, len(route)) && time == chainTime(net, nodes, len(route))
 //@   modifies nothing
 //@   loop 1 `for i := 0; i < len(nodes)-1; i++`
-//@     invariant 0 <= i && (len(nodes) >= 1 ? i <= len(nodes) - 1 : i == 0) && len(route) == i && (fresh(route) || cap(route) == 0) && distance == chainDist(net, nodes, i) && time == chainTime(net, nodes, i)
+//@     invariant 0 <= #1 && (len(nodes) >= 1 ? #1 <= len(nodes) - 1 : #1 == 0) && len(route) == #1 && (fresh(route) || cap(route) == 0) && distance == chainDist(net, nodes, #1) && time == chainTime(net, nodes, #1)
 //@     invariant [path_nodes] forall j int :: 0 <= j && j < len(nodes) ==> typeof(nodes[j]) == *node && nodes[j].(*node) != nil
-//@     invariant [link_k] forall k int :: 0 <= k && k < i ==> route[k] == linkOf(net, nodes, k).LineString
-//@     decreases len(nodes) - i
+//@     invariant [link_k] forall k int :: 0 <= k && k < #1 ==> route[k] == linkOf(net, nodes, k).LineString
+//@     decreases len(nodes) - #1
